@@ -225,4 +225,19 @@ theorem init_refine (k0 k1 k2 k3 i0 i1 i2 i3 : U32) :
   have e := abs_expand _ _ _ d1 d2
   exact stage5_spec _ _ _ e
 
+theorem readU32s_8 (seed : List U8) :
+    readU32s seed 8 = [le32At seed 0, le32At seed 1, le32At seed 2, le32At seed 3,
+      le32At seed 4, le32At seed 5, le32At seed 6, le32At seed 7] := rfl
+
+/-- `Hc128Core::from_seed`: key = the first four little-endian words of the seed, IV = the
+    next four -/
+theorem fromSeedCore_refine (seed : List U8) :
+    Abs (fromSeedCore seed).t
+      (initState #v[le32At seed 0, le32At seed 1, le32At seed 2, le32At seed 3]
+        #v[le32At seed 4, le32At seed 5, le32At seed 6, le32At seed 7]) ∧
+    (fromSeedCore seed).counter = 0 := by
+  unfold fromSeedCore
+  rw [readU32s_8]
+  exact init_refine _ _ _ _ _ _ _ _
+
 end Rngs.Hc128R
